@@ -1,7 +1,9 @@
-import Mutagen.Driver.Util
+import Mutagen.Driver.ScanText
 namespace Mutagen.Driver.C13
 
-/-- Model-side handler for one line of the C13 correspondence stream. -/
-def handle (_line : String) : String := "unimplemented"
+/-- Model-side handler for one line of the C13 correspondence stream: a cold
+scan followed by accelerated scans of edited filesystems (grammar in
+`Mutagen.Driver.ScanText`). -/
+def handle (line : String) : String := Mutagen.Driver.ScanText.handle line
 
 end Mutagen.Driver.C13
